@@ -513,7 +513,17 @@ def run_shard(col, k, nshards, tier, seed):
         if i % nshards == k:
             for rec in judge(c, col):
                 col.fail(rec, c)
+    from vf.gens import grammar
+    pstep = 8 if tier == 'quick' else 1
+    for d in corpus.DIALECTS:
+        for i, (_, toks) in enumerate(grammar.get(d).pair_sentences()):
+            if i % pstep == 0 and (i // pstep) % nshards == k:
+                c = {'dialect': d, 'sql': ' '.join(toks), 'origin': 'pairs'}
+                for rec in judge(c, col):
+                    col.fail(rec, c)
     if k == 0:
+        col.exhaustive_parts.append(('every 8th' if pstep > 1 else 'every') + ' accepted production-pair sentence of the three grammars '
+                                    '(every production with every alternative of each of its nonterminals)')
         col.exhaustive_parts.append(f'all {len(corpus.accepted())} corpus statements and {len(SHAPES) + 2 * len(COLTYPES + type_catalogue()) + 5 * len(BINOPS)} targeted shapes x 3 parser '
                                     f'dialects x {len(TARGETS)} renderer dialect names; every expression fragment in every statement frame '
                                     f'({len(FRAMES)} x {len(FRAGS)}) and every table fragment in every table frame ({len(TABLE_FRAMES)} x '
